@@ -38,9 +38,9 @@ def build(tier):
 
 def gen_cases(tier, seed):
     rng = random.Random(seed * 1000003 + (3 if PID == "c03" else 7))
-    n_sess, n_one, n_big = {"quick": (100, 8, 3), "search": (400, 30, 10), "thorough": (400, 40, 40)}[tier]
+    n_sess, n_one, n_big = {"quick": (100, 8, 3), "search": (400, 30, 10), "thorough": (200, 12, 10)}[tier]
     cases = [{"kind": "session", "seed": rng.randrange(1 << 48), "tier": tier} for _ in range(n_sess)]
-    cases += [{"kind": "oneshot", "seed": rng.randrange(1 << 48), "tier": tier, "count": 4} for _ in range(n_one)]
+    cases += [{"kind": "oneshot", "seed": rng.randrange(1 << 48), "tier": tier, "count": 4 if tier != "thorough" else 2} for _ in range(n_one)]
     cases += [{"kind": "session", "seed": rng.randrange(1 << 48), "tier": tier, "big": True} for _ in range(n_big)]
     cases += [{"kind": "equalsize", "seed": rng.randrange(1 << 48), "tier": tier, "count": 3} for _ in range({"quick": 6, "search": 12, "thorough": 20}[tier])]
     rng.shuffle(cases)
